@@ -308,16 +308,16 @@ func (nd *NodeDiff) Sort() {
 }
 
 func (nd *NodeDiff) isLessThan(nd2 *NodeDiff) bool {
-	left, right := nd.LeftNode(), nd2.LeftNode()
+	left, right := nd.sortNode(), nd2.sortNode()
 
 	if left.Tag().sortValue != right.Tag().sortValue {
 		return left.Tag().sortValue < right.Tag().sortValue
 	}
 
-	y1, ok1 := left.(Yearer)
-	y2, ok2 := right.(Yearer)
+	y1, ok1 := nd.sortYears()
+	y2, ok2 := nd2.sortYears()
 	if ok1 && ok2 {
-		return y1.Years() < y2.Years()
+		return y1 < y2
 	}
 
 	leftValue := left.Value()
@@ -329,6 +329,44 @@ func (nd *NodeDiff) isLessThan(nd2 *NodeDiff) bool {
 // LeftNode returns the flattening Node value that favors the left side.
 //
 // To favor means to return the Left value when both the Left and Right are set.
+// sortNode is the node that LeftNode() returns, but without adding the children
+// of the diff to it. Sorting must not modify the nodes that were compared.
+func (nd *NodeDiff) sortNode() Node {
+	if !IsNil(nd.Left) {
+		return nd.Left
+	}
+
+	return nd.Right
+}
+
+// sortYears is the same value as LeftNode().(Yearer).Years(), again without
+// modifying the node: the dates of an event are its own dates and the dates
+// that are children in the diff.
+func (nd *NodeDiff) sortYears() (float64, bool) {
+	node := nd.sortNode()
+
+	if _, ok := node.(Yearer); !ok {
+		return 0, false
+	}
+
+	if date, ok := node.(*DateNode); ok {
+		return date.Years(), true
+	}
+
+	dates := Dates(node)
+	for _, child := range nd.Children {
+		if date, ok := child.sortNode().(*DateNode); ok {
+			dates = append(dates, date)
+		}
+	}
+
+	if min := dates.Minimum(); min != nil {
+		return Years(min), true
+	}
+
+	return 0, true
+}
+
 func (nd *NodeDiff) LeftNode() Node {
 	n := nd.Left
 
